@@ -81,6 +81,7 @@ theorem specFwd_arranges (cs : List FpChild) (f : FwdSpec) (h : specFwd cs = som
       | none => simp [h1, h2, h3] at h
       | some s =>
         simp [h1, h2, h3] at h
+        obtain ⟨_, h⟩ := h
         subst h
         exact ⟨atMostOne_toList _ _ h1, atMostOne_toList _ _ h2, atMostOne_toList _ _ h3⟩
 
